@@ -99,7 +99,7 @@ func TestVerifC06Server(t *testing.T) {
 		`GroupBy(Rows(f), Rows(g), limit=3)`, `Rows(f, previous=1, limit=2)`, `Store(Row(f=1), g=3)`, `Not(Row(f=1))`, `Shift(Row(f=1), n=2)`, `Options(Row(f=1), shards=[0,1])`,
 	}
 
-	n := r.N(2400, 400000)
+	n := r.N(2400, 96000)
 	r.Cases("http", n, func(i int, id string, rng *vk.Rand) {
 		if i%25 == 24 {
 			setup()
